@@ -75,7 +75,7 @@ def _load():
         return
     _loaded = True
     import importlib
-    for m in ("histsim", "threadsim", "cachesim"):
+    for m in ("histsim", "histsim_auto", "threadsim", "cachesim"):
         try:
             importlib.import_module("bsim." + m)
         except ModuleNotFoundError as e:
